@@ -14,5 +14,6 @@ func controlsC01() []Control {
 		{Name: "re-buy credits another player", Expect: "R1", Mutate: replaceIn("(*tableEngine).PlayerReserve", "playerState := te.table.State.PlayerStates[targetPlayerIdx]", "playerState := te.table.State.PlayerStates[0]", 0)},
 		{Name: "leave computation filters the live player list in place", Expect: "R6", Mutate: replaceIn("(*tableEngine).calcLeavePlayers", "newPlayerStates := make([]*TablePlayerState, 0)", "newPlayerStates := currentPlayers[:0]", 0)},
 		{Name: "bankroll excluded from the JSON clone", Expect: "R4", Mutate: replaceInFile("/table.go", "Bankroll       int64                     `json:\"bankroll\"`", "Bankroll       int64                     `json:\"-\"`")},
+		{Name: "add-on without the engine lock", Expect: "R7", Mutate: replaceIn("(*tableEngine).PlayerRedeemChips", "\tte.lock.Lock()\n\tdefer te.lock.Unlock()\n", "", 0)},
 	}
 }
